@@ -477,6 +477,9 @@ package lua
 // C03: before the dying coroutine's registers are cleared, every upvalue pointing into them is closed (closeUpvalues(0))
 //@ assert@"L.SetTop(0)" ncalls() >= 1 && callfn(ncalls() - 1) == fnid("(*LState).closeUpvalues") && callargInt(ncalls() - 1, 1) == 0
 //@ assert@"switchToParentThread(L, 1, true, true)" top(L) == base(L) + 1 && L.reg.array[base(L)] == lv && !L.wrapped
+// a wrapped coroutine re-raises the error in its resumer: before that, it is dead, has no resumer any more and the resumer is
+// the current thread again ("an error inside a coroutine kills only that coroutine ... leaving the resumer's own state untouched")
+//@ assert@"parent.Panic(L)" L.wrapped && L.G.CurrentThread == parent && L.Parent == nil && L.Dead && top(L) >= 1 && L.reg.array[top(L) - 1] == lv
 //@ modifies everything
 
 // LState.Resume (Go API), verified from the call of threadRun onwards: the values delivered by the coroutine are collected
